@@ -412,7 +412,11 @@ class Flow:
         if bi not in self._vagg:
             ops = []
             for src in cs["ops"]:
-                if src[0] == "arg" and src[1] - 1 < len(t["args"]):
+                if src[0] == "arg" and src[1] - 1 < len(t["args"]) and t["args"][src[1] - 1].get("k") in ("copy", "move"):
+                    a = t["args"][src[1] - 1]
+                    flds = src[2] if len(src) > 2 else ()
+                    ops.append({"k": a["k"], "pl": {"l": a["pl"]["l"], "p": list(a["pl"]["p"]) + [{"f": 0, "n": n_} for n_ in flds]}} if flds else a)
+                elif src[0] == "arg" and src[1] - 1 < len(t["args"]):
                     ops.append(t["args"][src[1] - 1])
                 else:
                     ops.append({"k": "const", "ty": src[1] if src[0] == "unit" else "?"})
@@ -498,8 +502,9 @@ def ctor_summary(fx, key):
             ops.append(("unit", str(op.get("ty") or "")))
             continue
         oo = flow.origins(op["pl"]["l"], tuple(place_fields(op["pl"])))
-        if len(oo) == 1 and next(iter(oo))[0] == "arg" and not next(iter(oo))[2]:
-            ops.append(("arg", next(iter(oo))[1]))
+        if len(oo) == 1 and next(iter(oo))[0] == "arg":
+            # a parameter, or a field path of a parameter (`var: self.var.clone()`)
+            ops.append(("arg", next(iter(oo))[1], tuple(next(iter(oo))[2])))
         elif len(oo) == 1 and next(iter(oo))[0] == "agg" and not flow.agg_at(next(iter(oo))).get("ops"):
             ops.append(("unit", flow.agg_at(next(iter(oo))).get("adt") or ""))
         else:
